@@ -131,6 +131,18 @@ def oracle(c):
                 return "inplace=False returned the input object"
             if S.from_obj(o) != before:
                 return "inplace=False modified the input"
+            if before['rat']:
+                # every public view: read the result's views first, then the input's (a copy that shares
+                # lazily filled state with its source shows here)
+                def views(obj):
+                    return ([[c_.q if hasattr(c_, 'q') else F(c_) for c_ in pt] for pt in obj.ctrlpts],
+                            [w_.q if hasattr(w_, 'q') else F(w_) for w_ in obj.weights])
+                views(r)
+                cp, ws = views(o)
+                want_w = [pt[-1] for pt in before['P']]
+                want_cp = [[c_ / pt[-1] for c_ in pt[:-1]] for pt in before['P']]
+                if cp != want_cp or ws != want_w:
+                    return "inplace=False: after reading the result's ctrlpts / weights the input reports other ctrlpts / weights than before"
         return _check_one(before, S.from_obj(r), x, _start(before))
     from geomdl import multi
     ds = c.data['shapes']
